@@ -38,7 +38,7 @@ for _n in (3, 4):
             c.ensures('unit_tangent==derivative/|derivative|', ops.eq(u * ops.absv(d), d))
             nrm = c.callm(seg, 'normal', t)
             c.ensures('normal==-i*unit_tangent', ops.eq(nrm, ops.cx(0, -1) * u))
-        _reg(unit_tangent_regular, 'path.bezier_unit_tangent', n)
+        _reg(unit_tangent_regular, 'path.bezier_unit_tangent', n, budget=180)
 
         def curvature_regular(c):
             P, seg = mkseg(c, n)
@@ -49,7 +49,7 @@ for _n in (3, 4):
             speed = ops.absv(d)
             c.ensures('curvature*|B\'|^3==|x\'y\'\'-y\'x\'\'|', ops.eq(k * speed * speed * speed, ops.absv(ops.cross(d, dd))))
             c.ensures('curvature>=0', ops.le(0, k))
-        _reg(curvature_regular, 'path.segment_curvature', n, budget=120)
+        _reg(curvature_regular, 'path.segment_curvature', n, budget=180)
 
         def unit_tangent_at_a_start_with_coincident_control_points(c):
             """derivative vanishes at t=0 (first two control points coincide -- the normal case
@@ -93,3 +93,19 @@ def path_tangent_dispatches_through_T2t(c, kinds):
     r = c.callm(path, 'unit_tangent', T)
     c.ensures('unit_tangent(T)==segment[k].unit_tangent(t)-with-(k,t)=T2t(T)',
               r == 'TANGENT' and len(seen) == 1 and seen[0][0] is segs[k0] and seen[0][1] is t0)
+
+
+@contract('C15', 'path.bezier_unit_tangent', params=[{'end': e} for e in (0, 1)], budget=120)
+def cubic_unit_tangent_where_the_first_two_derivatives_vanish(c, end):
+    """three coincident control points at an end: B' and B'' vanish there, the curve is
+    P_end + s^3 * (P3 - P0) near it, so the direction of travel is (P3 - P0)/|P3 - P0| at both ends"""
+    P, seg = mkseg(c, 4)
+    if end == 0:
+        c.assume(ops.And(ops.eq(P[0], P[1]), ops.eq(P[1], P[2])))
+    else:
+        c.assume(ops.And(ops.eq(P[1], P[2]), ops.eq(P[2], P[3])))
+    d = P[3] - P[0]
+    c.assume(ops.ne(d, 0))
+    u = c.callm(seg, 'unit_tangent', end)
+    c.ensures('modulus-1', ops.eq(ops.norm2(u), 1))
+    c.ensures('points-in-the-direction-of-travel', ops.eq(u * ops.absv(d), d))
